@@ -278,6 +278,7 @@ type metaStep struct {
 	From      []treeEntry `json:"from"`
 	Keys      []string    `json:"keys"`
 	Skip      bool        `json:"skip"`
+	Stale     bool        `json:"stale"`
 	Loser     []treeEntry `json:"loser"`
 	Post      postState   `json:"post"`
 }
@@ -294,6 +295,10 @@ type metaRun struct {
 	// strictOrder: listing order is part of the verdict (C07 only)
 	strictOrder bool
 	applyToo    bool
+	// stash: local copies downloaded right after each upload, for updates starting from a copy that is
+	// older than the bundle's current metadata (delete-files rewrites a bundle under its id)
+	stash    map[int]string
+	useStash bool
 }
 
 func (m *metaRun) bad(sig string, exp, got interface{}, detail string) {
@@ -365,6 +370,12 @@ func (m *metaRun) doStep(st metaStep) {
 		err := core.Upload(ctx, b)
 		if st.Op == "upload" && err != nil {
 			m.bad("upload/error", "ok", err.Error(), "")
+		}
+		if st.Op == "upload" && err == nil && m.useStash && st.Bulk == 0 {
+			dir := e.scratch("stash")
+			if perr := core.Publish(ctx, e.newBundle(stores, st.Repo, e.ksuidFor(st.ID), localStore(dir))); perr == nil {
+				m.stash[st.ID] = dir
+			}
 		}
 		if st.Op == "uploadcrash" && !ctl.Crashed() {
 			m.bad("driver/crash-not-reached", nil, errString(err), "the crash point was not reached")
@@ -643,10 +654,17 @@ func (m *metaRun) update(stores context2.Stores, st metaStep) {
 	ctx := context.Background()
 	repo := m.repoOf(st.A)
 	dir := e.scratch("upd")
-	ba := e.newBundle(stores, repo, e.ksuidFor(st.A), localStore(dir))
-	if err := core.Publish(ctx, ba); err != nil {
-		m.bad("update/download-error", "ok", err.Error(), "")
-		return
+	if sd, ok := m.stash[st.A]; ok && st.Stale {
+		// the local copy was downloaded when #A was uploaded; its metadata may have been rewritten since
+		if err := copyTreeAll(sd, dir); err != nil {
+			panic(err)
+		}
+	} else {
+		ba := e.newBundle(stores, repo, e.ksuidFor(st.A), localStore(dir))
+		if err := core.Publish(ctx, ba); err != nil {
+			m.bad("update/download-error", "ok", err.Error(), "")
+			return
+		}
 	}
 	local := core.NewBundle(core.ConsumableStore(localStore(dir)), core.Logger(zap.NewNop()))
 	remote := e.newBundle(stores, repo, e.ksuidFor(st.B), nil)
@@ -1178,6 +1196,7 @@ func metaReplay(args []string) error {
 	finalDownload := fl.Bool("final-download", true, "download every visible bundle at the end")
 	strictOrder := fl.Bool("strict-order", false, "listing order is part of the verdict")
 	applyToo := fl.Bool("apply", false, "also list through the streaming Apply variants with a slow consumer")
+	useStash := fl.Bool("stash", false, "keep a local copy of every uploaded bundle; stale updates start from it")
 	_ = fl.Parse(args)
 	res := vutil.NewResult("meta")
 	run := func(i int, line []byte, r *vutil.BehResult) {
@@ -1192,7 +1211,8 @@ func metaReplay(args []string) error {
 		defer os.RemoveAll(wdir)
 		e := newMetaEnv(wdir, *lambda, *seed, *crc)
 		e.conc, e.batch, e.listConc = *conc, *batch, *listConc
-		m := &metaRun{e: e, r: r, line: line, anyFate: map[int]bool{}, modified: map[int]bool{}, deep: *deep, strictOrder: *strictOrder, applyToo: *applyToo}
+		m := &metaRun{e: e, r: r, line: line, anyFate: map[int]bool{}, modified: map[int]bool{}, deep: *deep, strictOrder: *strictOrder, applyToo: *applyToo,
+			stash: map[int]string{}, useStash: *useStash}
 		muts := 0
 		for j, st := range steps {
 			m.stepIdx, m.op = j, st.Op
@@ -1258,7 +1278,7 @@ func compactSteps(steps []metaStep) interface{} {
 		case "uploadkeys":
 			out = append(out, fmt.Sprintf("uploadkeys(%s,#%d,keys=%v,skip=%v)=%s", s.Repo, s.ID, s.Keys, s.Skip, s.Res))
 		case "update":
-			out = append(out, fmt.Sprintf("update(#%d->#%d)", s.A, s.B))
+			out = append(out, fmt.Sprintf("update(#%d->#%d,stale=%v)", s.A, s.B, s.Stale))
 		case "reupload":
 			out = append(out, fmt.Sprintf("reupload(%s,#%d,%s)", s.Repo, s.Bundle, s.Mode))
 		case "upload", "uploadcrash", "uploadrace":
@@ -1287,3 +1307,25 @@ func compactSteps(steps []metaStep) interface{} {
 }
 
 var _ = cafs.KeySize
+
+// copyTreeAll copies a directory tree (files and directories) from src to dst.
+func copyTreeAll(src, dst string) error {
+	return filepath.Walk(src, func(p string, info os.FileInfo, err error) error {
+		if err != nil {
+			return err
+		}
+		rel, err := filepath.Rel(src, p)
+		if err != nil {
+			return err
+		}
+		target := filepath.Join(dst, rel)
+		if info.IsDir() {
+			return os.MkdirAll(target, 0700)
+		}
+		data, err := ioutil.ReadFile(p)
+		if err != nil {
+			return err
+		}
+		return ioutil.WriteFile(target, data, 0600)
+	})
+}
